@@ -8,6 +8,7 @@ import (
 	"os/exec"
 	"runtime"
 	"strings"
+	"syscall"
 	"time"
 
 	"github.com/yaricom/goNEAT/v4/neat"
@@ -33,7 +34,7 @@ func init() {
 			return 5760
 		},
 		Run:        runC17,
-		Required:   []string{"runs.in_process", "runs.same_input_objects", "runs.copied_options", "runs.cross_process", "scenarios.random_population", "scenarios.spawned", "epochs.compared"},
+		Required:   []string{"runs.cross_process_stuttered", "runs.in_process", "runs.same_input_objects", "runs.copied_options", "runs.cross_process", "scenarios.random_population", "scenarios.spawned", "epochs.compared"},
 		TimeoutSec: func(tier string) int { return 7200 },
 	})
 }
@@ -315,6 +316,27 @@ func runC17(c *Ctx, idx int) {
 	}
 	p1, e1 := runProc()
 	p2, e2 := runProc("GOGC=1", "GOMAXPROCS=1")
+	if idx%4 == 0 || sc.Opts.NewLinkTries >= 256 {
+		// a third process which is stopped for 6 ms every 300 us (SIGSTOP / SIGCONT): wall-clock time runs twenty times
+		// faster for it than CPU time does, so anything decided by elapsed time comes out differently
+		p3, e3 := runStuttered(self, c.Tier, c.Seed, idx)
+		if strings.HasPrefix(e3, "helper process failed") {
+			c.Inconclusive("%s", e3)
+			return
+		}
+		c.Count("runs.cross_process_stuttered", 1)
+		if e3 != first.errText {
+			c.Violate("cross-process/error", detail(), "the run in this process ended with %q, the run in a process that was stopped and continued all the time with %q", first.errText, e3)
+			return
+		}
+		if d := firstDiff(first.hashes, p3); d >= 0 {
+			dd := detail()
+			dd["this_process"] = first.hashes
+			dd["other_process"] = p3
+			c.Violate("cross-process/wall-clock", dd, "the run in a process that was stopped for 6 ms every 300 us (wall-clock time passes, CPU time does not) diverges from this process at epoch %d", d)
+			return
+		}
+	}
 	if strings.HasPrefix(e1, "helper process failed") || strings.HasPrefix(e2, "helper process failed") {
 		c.Inconclusive("%s %s", e1, e2)
 		return
@@ -342,4 +364,50 @@ func runC17(c *Ctx, idx int) {
 			c.Sample(map[string]interface{}{"scenario": sc.brief(), "final_hash": first.final, "epochs": len(first.hashes), "species_at_end": first.species})
 		}
 	}
+}
+
+// runStuttered runs the helper process under a SIGSTOP / SIGCONT stutter
+func runStuttered(self, tier string, seed int64, idx int) ([]string, string) {
+	ctx, cancel := context.WithTimeout(context.Background(), 600*time.Second)
+	defer cancel()
+	cmd := exec.CommandContext(ctx, self, "c17dump", tier, fmt.Sprint(seed), fmt.Sprint(idx))
+	var out strings.Builder
+	cmd.Stdout = &out
+	if err := cmd.Start(); err != nil {
+		return nil, "helper process failed: " + err.Error()
+	}
+	done := make(chan struct{})
+	go func() {
+		for {
+			select {
+			case <-done:
+				return
+			default:
+			}
+			_ = cmd.Process.Signal(syscall.SIGSTOP)
+			time.Sleep(6 * time.Millisecond)
+			_ = cmd.Process.Signal(syscall.SIGCONT)
+			time.Sleep(300 * time.Microsecond)
+		}
+	}()
+	err := cmd.Wait()
+	close(done)
+	if err != nil {
+		return nil, "helper process failed: " + err.Error()
+	}
+	var hashes []string
+	errText, seen := "", false
+	for _, line := range strings.Split(out.String(), "\n") {
+		line = strings.TrimSpace(line)
+		if strings.HasPrefix(line, "HASHES") {
+			hashes = strings.Fields(strings.TrimPrefix(line, "HASHES"))
+			seen = true
+		} else if strings.HasPrefix(line, "ERROR") {
+			errText = strings.TrimSpace(strings.TrimPrefix(line, "ERROR"))
+		}
+	}
+	if !seen {
+		return nil, "helper process failed: no output"
+	}
+	return hashes, errText
 }
